@@ -30,6 +30,11 @@ func RacePass(r *Run, reps int) (runs int64) {
 			break
 		}
 	}
+	if i := strings.Index(text, "fatal error: "); i >= 0 && (i == 0 || text[i-1] == '\n') {
+		// the runtime's own detectors (concurrent map access, all goroutines asleep): the process dies
+		line := raceFirstLine(text[i:])
+		r.Violation("free-running-fatal:"+strings.ReplaceAll(strings.TrimPrefix(line, "fatal error: "), " ", "-"), "a free-running execution of the harness bodies died with a Go runtime "+line, Short(text[i:], 3000))
+	}
 	if i := strings.Index(text, "\npanic: "); i >= 0 && !strings.Contains(text, "DATA RACE") {
 		r.Violation("free-running-panic", "a free-running execution of the harness bodies panicked: "+raceFirstLine(text[i+1:]), Short(text[i:], 3000))
 	}
@@ -56,7 +61,7 @@ func RacePass(r *Run, reps int) (runs int64) {
 		}
 		r.Violation("data-race:"+fn, "the race detector reports a data race in a free-running execution of the harness bodies", Short(blk, 3000))
 	}
-	if err != nil && !strings.Contains(text, "DATA RACE") && !strings.Contains(text, "RACEPASS-HANG") && !strings.Contains(text, "\npanic: ") {
+	if err != nil && !strings.Contains(text, "DATA RACE") && !strings.Contains(text, "RACEPASS-HANG") && !strings.Contains(text, "\npanic: ") && !strings.Contains(text, "fatal error: ") {
 		Harness("race pass failed to run: %v\n%s", err, Short(text, 2000))
 	}
 	r.Set("race_pass_runs", runs)
